@@ -564,13 +564,23 @@ def run_property(prop, harnesses, tier, meta, extra=None):
 		rc = 2
 	write_evidence(prop, tier, seed, results, meta, time.time() - t0, nviol, inconclusive, known_hits, extra_out)
 	ok = sum(1 for r in results if r.status == "success")
-	print(f"[{prop}] tier={tier} harnesses={len(results)} proven={ok} known-findings={len(printed)} violations={nviol} "
+	xq = (extra_out or {}).get("queries", [])
+	smt = f" smt-queries={len(xq)} as-expected={sum(1 for q in xq if q['verdict'] == q['expected'])}" if extra_out is not None else ""
+	print(f"[{prop}] tier={tier} harnesses={len(results)} proven={ok}{smt} known-findings={len(printed)} violations={nviol} "
 		f"inconclusive={len(inconclusive)} wall={time.time() - t0:.0f}s")
 	return rc
 
 
+def evidence_dir():
+	"""/verif/evidence for a registered run against /repo; a scratch directory for development runs (harness filter, scratch
+	repository copy, unregistered harnesses, extra Kani arguments), which must never overwrite the evidence of a real run."""
+	dev = any(os.environ.get(k) for k in ("VERIF_ONLY", "VERIF_DEV_ALL", "VERIF_KANI_ARGS")) or os.path.realpath(REPO) != "/repo"
+	d = os.path.join(WORK, "evidence-dev") if dev else os.path.join(VERIF, "evidence")
+	os.makedirs(d, exist_ok=True)
+	return d
+
+
 def write_evidence(prop, tier, seed, results, meta, wall, nviol, inconclusive, known_hits, extra_out=None):
-	os.makedirs(os.path.join(VERIF, "evidence"), exist_ok=True)
 	obligations = sum(r.checks for r in results)
 	discharged = sum(r.checks - len(r.failed) for r in results if r.status in ("success", "failed"))
 	nontrivial = sum(1 for r in results if r.status in ("success", "failed") and (r.cover_total == 0 or r.cover_sat > 0))
@@ -621,5 +631,5 @@ def write_evidence(prop, tier, seed, results, meta, wall, nviol, inconclusive, k
 		"wall_s": round(wall, 1),
 		"violations": nviol,
 	}
-	with open(os.path.join(VERIF, "evidence", f"{prop}.json"), "w") as f:
+	with open(os.path.join(evidence_dir(), f"{prop}.json"), "w") as f:
 		json.dump(ev, f, indent=1)
